@@ -621,6 +621,9 @@ var (
 type gen struct {
 	c     *core.Ctx
 	names []string // name pool shared with the shredding schemas
+	// aux: a second stream derived from the same seed, for the dimensions of
+	// navigate.go and arena.go (the cases of the other parts stay what they were)
+	aux *rand.Rand
 }
 
 var unicodeBits = []string{"é", "ß", "λ", "Ж", "中", "日本", "😀", "\u0000", "~", " ", "a", "Z", "0", "_", "-"}
@@ -984,8 +987,9 @@ func checkEncode(c *core.Ctx, t *tree) {
 		c.Violation("decode-of-encode-differs", "Decode(Encode(v)) != v: got "+core.Trunc(got.canonText(), 300)+" want "+core.Trunc(want, 300), rp)
 		ok = false
 	}
-	// model bytes == Go bytes
-	if c.HasOracle() {
+	// model bytes == Go bytes (asked only when the predicate held: a failure is
+	// already reported, and the shrinker probes this function many times)
+	if c.HasOracle() && ok {
 		ans := c.Ask("c19.encode " + t.text())
 		impl := core.Hexs(meta) + " " + core.Hexs(val)
 		if ans != impl {
@@ -1829,12 +1833,33 @@ type fileCase struct {
 	Path     string   `json:"path"`  // writer | buffer | rows
 	PageBuf  int      `json:"page_buffer"`
 	Rows     []string `json:"rows"`
+	// FreshPool: the pool of tree encoders (variant/encoding.go) is emptied
+	// before every write and every read of the case, so that what the encoder
+	// does with the residual values depends on the case alone (arena.go)
+	FreshPool bool `json:"empty_encoder_pool,omitempty"`
 	plus
+}
+
+func (fc *fileCase) freshPool() {
+	if fc.FreshPool {
+		emptyEncoderPool()
+	}
 }
 
 // bulk: many rows (pages, dictionaries); the per-row model questions are
 // asked of the small cases only.
-func (fc *fileCase) bulk() bool { return len(fc.Rows) > 16 }
+func (fc *fileCase) bulk() bool { return len(fc.Rows) > 16 || fc.hugeRows() }
+
+// hugeRows: containers of thousands of children (arena.go); the model decoder
+// and the model's field sort are quadratic.
+func (fc *fileCase) hugeRows() bool {
+	for _, r := range fc.Rows {
+		if len(r) > 8000 {
+			return true
+		}
+	}
+	return false
+}
 
 // build returns the shredding schema, the file schema the library's own
 // shredding writer fills (schema), and, when a leaf has the layout of another
@@ -2062,6 +2087,7 @@ func checkFile(c *core.Ctx, fc *fileCase) {
 		c.Violation("schema-rejected", "a shredding schema of the supported class is rejected: "+err.Error(), fc)
 		return
 	}
+	fc.freshPool()
 	data, err := fc.write(s, schema, fschema, rows)
 	if err != nil {
 		c.Violation("file-write-error", fmt.Sprintf("writing %s/%s: %v", fc.Write, fc.Path, err), fc)
@@ -2087,6 +2113,7 @@ func checkFile(c *core.Ctx, fc *fileCase) {
 
 	// the same rows through the columnar writer (variant_column_writer.go)
 	if fschema == nil {
+		fc.freshPool()
 		data2, err := colWrite(schema, []string{"var"}, rows, nil, fc.Optional, fc.writerOptions())
 		if err != nil {
 			c.Violation("columnar-write-error", fmt.Sprintf("schema %s optional=%v: VariantColumnWriter: %v", fc.Schema, fc.Optional, err), fc)
@@ -2203,6 +2230,7 @@ func (fc *fileCase) verify(c *core.Ctx, s *sch, schema *parquet.Schema, data []b
 			where, form, i, core.Trunc(got, 300), core.Trunc(want[i], 300)), fc)
 	}
 	// typed read
+	fc.freshPool()
 	if err := protect(func() error {
 		r := parquet.NewGenericReader[rowAny](bytes.NewReader(data), schema)
 		defer r.Close()
@@ -2253,6 +2281,7 @@ func (fc *fileCase) verify(c *core.Ctx, s *sch, schema *parquet.Schema, data []b
 		return true
 	}
 	// raw read through the file's own schema
+	fc.freshPool()
 	if err := protect(func() error {
 		r := parquet.NewGenericReader[rowRawP](bytes.NewReader(data), schema)
 		defer r.Close()
@@ -2276,6 +2305,7 @@ func (fc *fileCase) verify(c *core.Ctx, s *sch, schema *parquet.Schema, data []b
 		c.Violation("raw-read-error", where+": "+err.Error(), fc)
 	}
 	// conversion to an unshredded variant column (convert_variant.go)
+	fc.freshPool()
 	if err := protect(func() error {
 		out, err := parquet.Read[rowRaw](bytes.NewReader(data), size)
 		if err != nil {
@@ -2312,6 +2342,8 @@ func (fc *fileCase) verify(c *core.Ctx, s *sch, schema *parquet.Schema, data []b
 			}
 		}
 	}
+	// typed navigation: cursors on paths inside / outside the shredding schema (navigate.go)
+	checkNavigate(c, where, fc, data, s, []string{"var"}, &fc.plus, want, !fc.hugeRows())
 }
 
 func shrinkFile(c *core.Ctx, fc *fileCase) *fileCase {
@@ -2361,6 +2393,8 @@ func shrinkFile(c *core.Ctx, fc *fileCase) *fileCase {
 	// the options of the case, one at a time
 	simplers := []func(*fileCase){
 		func(x *fileCase) { x.Evo = nil },
+		func(x *fileCase) { x.Nav = nil },
+		func(x *fileCase) { x.NavAll = false },
 		func(x *fileCase) { x.Dict, x.DictMax = "", 0 },
 		func(x *fileCase) { x.Late = false },
 		func(x *fileCase) { x.Window = 0 },
@@ -2389,6 +2423,12 @@ func shrinkFile(c *core.Ctx, fc *fileCase) *fileCase {
 			}
 		}
 	}
+	// one navigation path, then its shortest failing prefix
+	cur.Nav = shrinkNav(cur.Nav, func(nav []string) bool {
+		t := cur
+		t.Nav = nav
+		return fails(&t)
+	})
 	// simpler shredding schemas
 	if s0, err := parseSch(cur.Schema); err == nil {
 		for changed := true; changed && budget > 0; {
@@ -2516,8 +2556,8 @@ func (s *sch) coq() string {
 }
 
 func runC19(c *core.Ctx) {
-	c.Res.Rule = "variant value trees generated at random (depth <= 5, every primitive kind with edge values, strings of length 0,1,62..65,80 with multi-byte UTF-8, names from a small pool shared with the schemas plus empty/long/unicode names) and boundary trees (arrays/objects of 0,1,2,254..257 elements; container payloads of exactly 254..257 and 65534..65537 bytes with 1..3 elements; dictionaries of 255..300 names followed by small objects using the highest ids; dictionary bytes of 254..257 and 65535/65536; sorted and unsorted dictionaries); each tree: variant.Encode bytes == model bytes, Decode(Encode(v)) == v, model decoder on Go's bytes == v, variant.Builder through Value.Write (round trip, metadata == Encode's, value == Encode's when fields arrive in name order, else model decoder), Marshal/Unmarshal of the Go value, and random conforming non-canonical encodings (wider offsets, is_large, long-form strings, shuffled object values, permuted dictionaries) through both decoders. Files: random shredding schemas (all typed leaves, objects, lists, nesting <= 3) and unshredded columns x optional/required x page v1/v2 x typed/raw write x writer/buffer/rows plumbing, several rows with nulls; every row read back typed, raw and converted to unshredded must equal the written value, and the stored leaf columns must equal the model's shredding. Thresholds (bounds.go): array / object children, dictionary names totalling 0xFE..0x101, 0xFFFE..0x10001 and 0xFFFFFF, 0x1000000 (thorough also 0xFFFFFE, 0x1000001) bytes, highest field id 0xFE..0x100 and 0xFFFE..0x10000 (thorough: around 2^24), through Encode and Builder: Go round trip, header bytes == the model's header functions on the sizes, payload == the children, offset-size fields == offset_size_code of the number. Nested (nested.go): the variant column below a repeated group, a LIST, as a repeated node, below an optional group and below repeated-in-optional, variant node required/optional, rows of 0..3 items / absent groups / null items, schemas biased to lists, same write and read combinations, every item compared, leaf columns compared per item as delimited by the stored levels. Other access paths and layouts (widen.go): every top-level file case and every case below an optional group is also read through the columnar VariantReader (every row rebuilt from cursors: location tags, typed vectors, list offsets, residuals; windows of 1..1000 rows; cursors created before the first Next, or after it followed by SeekToRow(0)) and also written through VariantColumnWriter (WriteValue and BeginRow/Value.Write/EndRow, WriteNullRow) and that file read back typed, raw, converted and columnar; writer options: typed leaves (or every column) dictionary encoded, DictionaryMaxBytes 8..1024, pages of 64..1024 bytes; many-row files (40..300 rows) whose chunks start with dictionary pages and continue PLAIN (recorded per case); decimal16 leaves in the layouts of other writers (FIXED_LEN_BYTE_ARRAY(n) for every n from the least that holds the precision to 15, BYTE_ARRAY of minimal and padded length; rows shredded by the library, leaf values re-laid out and stored through the row API; corpus over precisions x widths x {leaf, object field, list element} with -1, the bounds of the precision and values around every sign-byte boundary, and in the random schemas), read typed, raw, converted, columnar, the model reader run on the re-laid-out fragment and the stored leaf columns compared with it; convert-to-unshredded through reader schemas that drop sibling columns of the file, add columns the file lacks (one leaf, required or optional, or a group of two leaves; names sorting before and after the variant column), list group fields out of name order (file side and reader side) and flip the variant column between required and optional, at the top level and inside the enclosing group of every nested placement, through parquet.NewReader(schema) and Convert+ConvertRowGroup: every item must be the value written, kept columns must hold what was written, added columns nothing. Non-trivial = container or string at the root (encode cases), every file case; distinct by tree / case text."
-	g := &gen{c: c, names: []string{"a", "b", "c", "d", "e"}}
+	c.Res.Rule = "variant value trees generated at random (depth <= 5, every primitive kind with edge values, strings of length 0,1,62..65,80 with multi-byte UTF-8, names from a small pool shared with the schemas plus empty/long/unicode names) and boundary trees (arrays/objects of 0,1,2,254..257 elements; container payloads of exactly 254..257 and 65534..65537 bytes with 1..3 elements; dictionaries of 255..300 names followed by small objects using the highest ids; dictionary bytes of 254..257 and 65535/65536; sorted and unsorted dictionaries); each tree: variant.Encode bytes == model bytes, Decode(Encode(v)) == v, model decoder on Go's bytes == v, variant.Builder through Value.Write (round trip, metadata == Encode's, value == Encode's when fields arrive in name order, else model decoder), Marshal/Unmarshal of the Go value, and random conforming non-canonical encodings (wider offsets, is_large, long-form strings, shuffled object values, permuted dictionaries) through both decoders. Files: random shredding schemas (all typed leaves, objects, lists, nesting <= 3) and unshredded columns x optional/required x page v1/v2 x typed/raw write x writer/buffer/rows plumbing, several rows with nulls; every row read back typed, raw and converted to unshredded must equal the written value, and the stored leaf columns must equal the model's shredding. Thresholds (bounds.go): array / object children, dictionary names totalling 0xFE..0x101, 0xFFFE..0x10001 and 0xFFFFFF, 0x1000000 (thorough also 0xFFFFFE, 0x1000001) bytes, highest field id 0xFE..0x100 and 0xFFFE..0x10000 (thorough: around 2^24), through Encode and Builder: Go round trip, header bytes == the model's header functions on the sizes, payload == the children, offset-size fields == offset_size_code of the number. Nested (nested.go): the variant column below a repeated group, a LIST, as a repeated node, below an optional group and below repeated-in-optional, variant node required/optional, rows of 0..3 items / absent groups / null items, schemas biased to lists, same write and read combinations, every item compared, leaf columns compared per item as delimited by the stored levels. Other access paths and layouts (widen.go): every top-level file case and every case below an optional group is also read through the columnar VariantReader (every row rebuilt from cursors: location tags, typed vectors, list offsets, residuals; windows of 1..1000 rows; cursors created before the first Next, or after it followed by SeekToRow(0)) and also written through VariantColumnWriter (WriteValue and BeginRow/Value.Write/EndRow, WriteNullRow) and that file read back typed, raw, converted and columnar; writer options: typed leaves (or every column) dictionary encoded, DictionaryMaxBytes 8..1024, pages of 64..1024 bytes; many-row files (40..300 rows) whose chunks start with dictionary pages and continue PLAIN (recorded per case); decimal16 leaves in the layouts of other writers (FIXED_LEN_BYTE_ARRAY(n) for every n from the least that holds the precision to 15, BYTE_ARRAY of minimal and padded length; rows shredded by the library, leaf values re-laid out and stored through the row API; corpus over precisions x widths x {leaf, object field, list element} with -1, the bounds of the precision and values around every sign-byte boundary, and in the random schemas), read typed, raw, converted, columnar, the model reader run on the re-laid-out fragment and the stored leaf columns compared with it; convert-to-unshredded through reader schemas that drop sibling columns of the file, add columns the file lacks (one leaf, required or optional, or a group of two leaves; names sorting before and after the variant column), list group fields out of name order (file side and reader side) and flip the variant column between required and optional, at the top level and inside the enclosing group of every nested placement, through parquet.NewReader(schema) and Convert+ConvertRowGroup: every item must be the value written, kept columns must hold what was written, added columns nothing. Typed navigation (navigate.go): every top-level file case and every case below an optional group is also read through a second VariantReader that holds the cursors of 1..4 paths (positions of the shredding schema; paths of the written values, which leave the schema where the value does; either extended by a Field of a pooled / absent / empty name or by Elements), alone or together with every cursor of the schema, over the windows / late creation / SeekToRow(0) of the case: at every prefix of a path the cursor must have the entries of the logical navigation of the written values (count, window row, missing or not), ListOffsets the running totals of the array lengths, and the value rebuilt from the last cursor must be the written value at the path; entries and offsets as text == c19.navigate / c19.offsets (Variant/Navigate.v). Size x nesting x encoder history (arena.go): containers of 31,32,33,64,65,100 and 4095,4096,4097,5000 children (the 32-entry arenas of a fresh tree encoder, their first doubling, the 4096 entries the encoder pool keeps), arrays and objects inside arrays and objects, alone / first / middle / last among siblings, depth 2 and 3, five element kinds, payloads around 1 KiB and 1 MiB, each through Encode, Marshal and a Builder from an emptied encoder pool (two garbage collections); sequences of 2..5 such values of every pair of size classes on one pooled encoder (Encode, Marshal, both alternating) and one reused Builder, every output examined after the whole sequence; the same values as residuals of shredded files (type mismatch, leftover field, list element) with the pool emptied before every write and read. Non-trivial = container or string at the root (encode cases), every file case, every arena case; distinct by tree / case text."
+	g := &gen{c: c, names: []string{"a", "b", "c", "d", "e"}, aux: rand.New(rand.NewSource(c.Seed ^ 0x5eed19c0ffee))}
 	var vmEnc, vmShred []string
 
 	addVmEnc := func(t *tree) {
@@ -2579,6 +2619,8 @@ func runC19(c *core.Ctx) {
 
 	// every use of offsetSizeCode below / at / above 0xFF, 0xFFFF, 0xFFFFFF (bounds.go)
 	runBigCases(c)
+	// size x nesting x encoder history (arena.go)
+	runArena(c, g)
 
 	// files
 	nFiles := c.N(400, 10000)
@@ -2607,6 +2649,7 @@ func runC19(c *core.Ctx) {
 			}
 		}
 		fc.plus = g.plus("top", false)
+		fc.Nav, fc.NavAll = g.navPaths(s, fc.Rows), g.aux.Intn(3) == 0
 		runFileCase(c, fc, fmt.Sprintf("file/%c/%s", s.Kind, fc.Write))
 		if i < 2 {
 			c.Sample(fc)
@@ -2629,6 +2672,7 @@ func runC19(c *core.Ctx) {
 			}
 			fc.Rows = append(fc.Rows, g.valueFor(s, 1+c.Rng.Intn(3), false).text())
 		}
+		fc.Nav, fc.NavAll = g.navPaths(s, fc.Rows), g.aux.Intn(3) == 0
 		mixed := runBulkCase(c, fc)
 		if i < 1 {
 			c.Sample(map[string]any{"mode": "file", "schema": fc.Schema, "rows": len(fc.Rows), "page_buffer": fc.PageBuf, "options": fc.plus.text(), "chunks_mixing_dictionary_and_plain_pages": mixed})
@@ -2681,6 +2725,9 @@ func runC19(c *core.Ctx) {
 	c.Res.VmCases = len(vmEnc) + len(vmShred) + len(vmHeaders)
 	c.Note("part 8 (widen.go) reached: %d columnar reads (%d with cursors created after the first Next and SeekToRow(0)), %d files written by VariantColumnWriter, %d files in the layout of other writers holding %d typed decimals narrower than 16 bytes (%d negative), %d reads through evolved reader schemas (%d nested; %d with a column added before the variant column, %d with one dropped before it, %d with fields out of name order)",
 		reach.colReads, reach.colReadsLate, reach.colWrites, reach.foreignFiles, reach.narrowLeaves, reach.narrowNegativeLeaves, reach.evolved, reach.evolvedNested, reach.addedBefore, reach.droppedBefore, reach.reordered)
+	c.Note("part 9 (navigate.go) reached: %d navigation reads (%d with every cursor of the shredding schema as well) over %d paths (%d ending inside the shredding schema, %d outside it, %d through Elements), %d entries compared (%d present); windows read with a cursor outside the schema: %d of partially shredded objects only, %d of residual rows only, %d of fully typed / null rows only, %d mixed",
+		navReach.reads, navReach.withAll, navReach.paths, navReach.inside, navReach.outside, navReach.elems, navReach.entries, navReach.present,
+		navReach.winPartial, navReach.winResidual, navReach.winTyped, navReach.winMixed)
 	c.Note("float32 values are generated without signalling NaNs: variant.Value keeps a float32 as float64 and the conversion quiets them (hardware behaviour; stated assumption)")
 	c.Note("typed writes use only kinds with a Go-native mapping (variant.ValueOf); dates, times, *_ntz timestamps and decimals enter through raw writes")
 	c.Note("the columnar VariantColumnWriter / VariantReader do not reach variant columns below a repeated field (resolveVariantColumn rejects them): exercised at the top level and below an optional group; VariantColumnWriter cannot write an absent enclosing group: those rows are written by the row API only")
@@ -2737,6 +2784,14 @@ func replayC19(c *core.Ctx, raw json.RawMessage) {
 		}
 		checkBig(c, &bc)
 		c.Case("replay/big", string(raw), true)
+	case "arena":
+		var ac arenaCase
+		if err := json.Unmarshal(raw, &ac); err != nil {
+			c.Note("unreadable arena case: %v", err)
+			return
+		}
+		checkArena(c, &ac)
+		c.Case("replay/arena", string(raw), true)
 	case "nested":
 		var nc nestCase
 		if err := json.Unmarshal(raw, &nc); err != nil {
